@@ -48,13 +48,17 @@ TIERS = {
 }
 REQUIRED_PROBES = {"quick": ["error_recorded_in_vevent", "non_lenient_container_raised", "delivery_with_warm_cache",
                              "hostile_id_reached_tz_lookup", "tzdb_view:package-only", "tzdb_view:tzpath-only",
-                             "isolation_checked", "multiple_components_returned", "delivered_as_str",
+                             "isolation_checked", "multiple_components_returned", "delivered_as_str", "long_run_delivered",
                              "parse_failed_after_caching_zone", "deep_nesting"]}
 REQUIRED_PROBES["thorough"] = REQUIRED_PROBES["quick"]
 
 LINE_BUDGET_BASE = 6_000_000
 LINE_BUDGET_PER_BYTE = 2000
 CPU_SECONDS = 30
+# CPU time an operation may use: loops inside C code (regular expressions) produce no line events.  Exhausting
+# the line budget takes about 4 s of CPU under monitoring, so anything beyond this bound is not interpreter work.
+CPU_BOUND_BASE = 8.0
+CPU_BOUND_PER_10KB = 1.0
 
 _POOL = None
 
@@ -179,7 +183,7 @@ def gen_synthetic(rng):
 # ---------------------------------------------------------------------------
 # generation
 
-FAULT_WEIGHTS = [("torn", 3), ("flip", 3), ("garbage", 2), ("lose_line", 4), ("dup_line", 4), ("swap_lines", 4),
+FAULT_WEIGHTS = [("run", 2), ("torn", 3), ("flip", 3), ("garbage", 2), ("lose_line", 4), ("dup_line", 4), ("swap_lines", 4),
                  ("lose_block", 3), ("dup_block", 3), ("move_block", 3), ("interleave", 3), ("concat", 2),
                  ("refold", 3), ("hostile_field", 6), ("token_subst", 5)]
 
@@ -302,13 +306,21 @@ class Budget:
         self.exceeded = False
         self.limit = LINE_BUDGET_BASE + LINE_BUDGET_PER_BYTE * nbytes
         self.install()
-        old = signal.signal(signal.SIGALRM, self._alarm)
-        signal.setitimer(signal.ITIMER_REAL, CPU_SECONDS)
+        # CPU time, not wall time: the verdict must not depend on how busy the machine is
+        old = signal.signal(signal.SIGVTALRM, self._alarm)
+        signal.setitimer(signal.ITIMER_VIRTUAL, CPU_SECONDS)
         if self.mon is not None:
             self.mon.set_events(self.TOOL, self.mon.events.LINE)
+        import time as _t
+        c0 = _t.process_time()
         try:
             try:
-                return "ok", fn(), self.count
+                val = fn()
+                self.cpu = _t.process_time() - c0
+                if self.cpu > CPU_BOUND_BASE + CPU_BOUND_PER_10KB * nbytes / 10240:
+                    self.exceeded = True
+                    return "budget", BudgetExceeded(f"{self.cpu:.1f}s CPU for {nbytes} bytes (the operation completed)"), self.count
+                return "ok", val, self.count
             except BudgetExceeded as e:
                 return "budget", e, self.count
             except BaseException as e:
@@ -318,8 +330,8 @@ class Budget:
         finally:
             if self.mon is not None:
                 self.mon.set_events(self.TOOL, 0)
-            signal.setitimer(signal.ITIMER_REAL, 0)
-            signal.signal(signal.SIGALRM, old)
+            signal.setitimer(signal.ITIMER_VIRTUAL, 0)
+            signal.signal(signal.SIGVTALRM, old)
 
 
 BUDGET = Budget()
@@ -345,6 +357,10 @@ def _parse_and_use(res, stepno, data, multiple, tag, entry="Calendar"):
     nbytes = len(data)
     kind, val, used = BUDGET.run(nbytes, lambda: cls.from_ical(data, multiple=multiple))
     if BUDGET.exceeded or kind == "budget":
+        if "CPU for" in str(val) and used < BUDGET.limit:
+            res.violate("C04/termination/from_ical:cpu-time-outside-interpreter", stepno,
+                        f"{tag}: {val} with only {used} line events - time spent inside C code")
+            return "budget", None
         res.violate("C04/termination/from_ical:" + _where_budget(val) + _rule_class(data, _where_budget(val)), stepno,
                     f"{tag}: step budget exhausted after {used} line events for {nbytes} bytes")
         return "budget", None
@@ -448,6 +464,8 @@ def execute(run, res):
                 data = new
             if len(data) > 65536:
                 data = data[:65536]
+            if "run" in fired:
+                res.probe("long_run_delivered")
             if warm:
                 res.probe("delivery_with_warm_cache")
             payload = data
